@@ -313,3 +313,82 @@ def run(ctx):
                     )
     if ntransit == 0:
         r6.good("redun/executors:no-cross-thread-transit", "no thread removes from a collection read by another thread's loop guard")
+
+    # ---- C10.7 -----------------------------------------------------------
+    # the reunite branch of a submit method may decline (remote job gone); whatever it decides, the job must end up registered with a
+    # collection a monitor polls, handed to the arrayer / another submit method, or reported.  Paths are enumerated with the None-ness of the
+    # remote-id variable tracked, because the hand-off to the arrayer is written as `if <id> is None: self.arrayer.add_job(job)`.
+    r7 = ctx.rule("C10.7", "every feasible path through a reuniting submit method registers, forwards or reports the job", floor=4)
+    nsub = 0
+    for rel in EXECUTORS:
+        mod = repo.mod(rel)
+        for qn, fn in mod.funcs.items():
+            if qn.count(".") != 1 or mod.enclosing_func(fn) is not None and False:
+                continue
+            if not any(isinstance(x, ast.Attribute) and x.attr.startswith("preexisting_") for x in ast.walk(fn)) or "gather" in qn or qn.endswith("__init__"):
+                continue
+            params = [a.arg for a in fn.args.args]
+            if "job" not in params:
+                continue
+            nsub += 1
+            bad = _unregistered_path(fn, "job")
+            r7.check(
+                bad is None,
+                f"{rel}:{qn}:registers-job",
+                f"{qn} has a feasible path that neither registers `job` in a polled collection, nor hands it to the arrayer or another submit method, nor reports it: {bad}; "
+                "such a job is never done or rejected and the scheduler waits for it forever",
+                rel,
+                fn.lineno,
+            )
+    if nsub < 4:
+        raise AnalysisError(f"only {nsub} reuniting submit methods found (expected >= 4)", "preexisting_")
+
+
+def _unregistered_path(fn, jv):
+    from ..cfg import CFG
+
+    cfg = CFG(fn)
+
+    def registers(n):
+        if n.kind != "stmt" or n.ast is None or isinstance(n.ast, (ast.If, ast.For, ast.While, ast.Try, ast.With, FuncNode)):
+            return False
+        for w in ast.walk(n.ast):
+            if isinstance(w, ast.Assign) and any(isinstance(t, ast.Subscript) and any(isinstance(y, ast.Attribute) and src(y.value) == "self" for y in ast.walk(t.value)) for t in w.targets) and any(isinstance(x, ast.Name) and x.id == jv for x in ast.walk(w.value)):
+                return True
+            if isinstance(w, ast.Call) and any(isinstance(a, ast.Name) and a.id == jv for a in w.args) and isinstance(w.func, ast.Attribute):
+                if w.func.attr in ("add_job", "append", "appendleft", "done_job", "reject_job") or w.func.attr.lstrip("_").startswith("submit"):
+                    return True
+        return False
+
+    for path in cfg.paths(ends=[cfg.exit], max_visits=1, limit=50000):
+        env = {}
+        feasible, reg, trail = True, False, []
+        for n in path:
+            if n.kind == "edge" and isinstance(n.test.ast, ast.expr):
+                t = n.test.ast
+                want = n.label == "T"
+                var, is_none_test = None, None
+                if isinstance(t, ast.Compare) and len(t.ops) == 1 and isinstance(t.left, ast.Name) and isinstance(t.comparators[0], ast.Constant) and t.comparators[0].value is None:
+                    var, is_none_test = t.left.id, isinstance(t.ops[0], ast.Is)
+                if var is not None and var in env:
+                    holds = (env[var] == "none") == is_none_test
+                    if holds != want:
+                        feasible = False
+                        break
+                trail.append(f"{src(t)[:40]}={'T' if want else 'F'}@{n.test.lineno}")
+            elif n.kind == "stmt" and n.ast is not None:
+                a = n.ast
+                if isinstance(a, (ast.Assign, ast.AnnAssign)):
+                    tg = a.targets[0] if isinstance(a, ast.Assign) else a.target
+                    if isinstance(tg, ast.Name) and a.value is not None:
+                        if isinstance(a.value, ast.Constant) and a.value.value is None:
+                            env[tg.id] = "none"
+                        else:
+                            env.pop(tg.id, None)
+                elif isinstance(a, ast.Assert) and isinstance(a.test, ast.Name):
+                    env[a.test.id] = "some"
+                if registers(n):
+                    reg = True
+        if feasible and not reg:
+            return "path " + " -> ".join(trail[-6:])
+    return None
